@@ -215,13 +215,13 @@ func (p compPlan) source(c *Ctx, i int64) srcCase {
 		if g.N(10) == 0 {
 			max = 1 << 20
 		}
-		b, cl := gen.Source(g, c.Repo, max)
+		b, cl := gen.DrawSource(g, c.Repo, max)
 		return srcCase{b, cl.Name, cl.Size, false}
 	}
 	// large sources: 64 KiB .. 4 MiB
-	b, cl := gen.Source(g, c.Repo, 4<<20)
+	b, cl := gen.DrawSource(g, c.Repo, 4<<20)
 	for tries := 0; len(b) < 65536 && tries < 20; tries++ {
-		b, cl = gen.Source(g, c.Repo, 4<<20)
+		b, cl = gen.DrawSource(g, c.Repo, 4<<20)
 	}
 	return srcCase{b, cl.Name + "-large", cl.Size, false}
 }
@@ -290,6 +290,13 @@ func roundTripCase(c *Ctx, i int64, prop string) {
 			dlens = append(dlens, len(src), len(src)/2+8, bound-1, bound+5)
 		} else if g.N(4) == 0 {
 			dlens = append(dlens, bound+1+g.N(64))
+		}
+		if e.name != "fast/fresh" && e.name != "hc/fresh" && len(src) > 16 && (int(i)+e.depth)%3 == 0 {
+			// real history for the reused / pooled objects: a call that fails on a too-small
+			// destination (the HC compressor reports that by a recovered panic mid-way)
+			short := make([]byte, g.Pick(1, 8, len(src)/8+4, len(src)/3+4))
+			c.Guard(e.name, func() { e.call(src, short) })
+			c.Count("failed_calls_in_history", 1)
 		}
 		for _, dl := range dlens {
 			if dl < 0 {
@@ -622,7 +629,7 @@ func c14BlockCase(c *Ctx, i int64) {
 	{
 		f := mk()
 		for k := 0; k < 3; k++ {
-			o, _ := gen.Source(g, c.Repo, 70000)
+			o, _ := gen.DrawSource(g, c.Repo, 70000)
 			c.Guard("history", func() { f(o, sink[:lz4.CompressBlockBound(len(o))]) })
 		}
 		check("unrelated", f)
@@ -656,7 +663,7 @@ func c14BlockCase(c *Ctx, i int64) {
 	// H4: a larger input (positions beyond 64 KiB) first
 	if len(src) < 300000 {
 		f := mk()
-		big, _ := gen.Source(g, c.Repo, 200000)
+		big, _ := gen.DrawSource(g, c.Repo, 200000)
 		big = append(big, src...)
 		big = append(big, g.Bytes(70000)...)
 		if depth >= 0 && effDepth(depth) > 256 {
@@ -685,7 +692,7 @@ func c14BlockCase(c *Ctx, i int64) {
 		done := make(chan int, G)
 		others := make([][]byte, G)
 		for k := range others {
-			others[k], _ = gen.Source(g, c.Repo, 30000)
+			others[k], _ = gen.DrawSource(g, c.Repo, 30000)
 		}
 		for k := 0; k < G; k++ {
 			go func(k int) {
